@@ -685,3 +685,56 @@ Proof.
   - intros H t Ht Hd. specialize (H t Ht). rewrite Hd in H. exact H.
   - intros H t Ht. destruct (should_drop p t) eqn:E; [reflexivity|]. cbn. apply H; assumption.
 Qed.
+
+(* ------------------------------------------------------------------ resolve_command_base_dir *)
+
+Lemma rbf_cons cwd base f rest :
+  resolve_base_from cwd base (f :: rest) =
+  if str_eqb f gen_norm_flag then
+    match rest with
+    | [] => None
+    | p :: rest' =>
+        if path_is_relative p then
+          match base with
+          | Some cur => resolve_base_from cwd (Some (path_join cur p)) rest'
+          | None => match cwd with
+                    | Some d => resolve_base_from cwd (Some (path_join d p)) rest'
+                    | None => None
+                    end
+          end
+        else resolve_base_from cwd (Some p) rest'
+    end
+  else resolve_base_from cwd base rest.
+Proof. reflexivity. Qed.
+
+(* once an absolute -C (or any base) is known, the process working directory is never consulted *)
+Lemma resolve_base_known_aux cwd1 cwd2 : forall n ga b, (List.length ga <= n)%nat ->
+  resolve_base_from cwd1 (Some b) ga = resolve_base_from cwd2 (Some b) ga.
+Proof.
+  induction n as [|n IH]; intros ga b Hn.
+  - destruct ga; [reflexivity|cbn in Hn; lia].
+  - destruct ga as [|f rest]; [reflexivity|]. rewrite !(rbf_cons _ _ f). cbn in Hn.
+    destruct (str_eqb f gen_norm_flag).
+    + destruct rest as [|p rest']; [reflexivity|]. cbn in Hn.
+      destruct (path_is_relative p); apply IH; lia.
+    + apply IH. lia.
+Qed.
+
+Lemma resolve_base_known cwd1 cwd2 ga b :
+  resolve_base_from cwd1 (Some b) ga = resolve_base_from cwd2 (Some b) ga.
+Proof. exact (resolve_base_known_aux cwd1 cwd2 (List.length ga) ga b (le_n _)). Qed.
+
+(* with a known working directory the result is the one obtained by starting from it *)
+Lemma resolve_base_cwd_aux d : forall n ga, (List.length ga <= n)%nat ->
+  resolve_base_from (Some d) None ga = resolve_base_from (Some d) (Some d) ga.
+Proof.
+  induction n as [|n IH]; intros ga Hn.
+  - destruct ga; [reflexivity|cbn in Hn; lia].
+  - destruct ga as [|f rest]; [reflexivity|]. rewrite !(rbf_cons _ _ f). cbn in Hn.
+    destruct (str_eqb f gen_norm_flag).
+    + destruct rest as [|p rest']; [reflexivity|]. destruct (path_is_relative p); reflexivity.
+    + apply IH. lia.
+Qed.
+
+Lemma resolve_base_cwd d ga : resolve_base_from (Some d) None ga = resolve_base_from (Some d) (Some d) ga.
+Proof. exact (resolve_base_cwd_aux d (List.length ga) ga (le_n _)). Qed.
